@@ -287,6 +287,17 @@ int handle_routing_response(const cJSON *json_rpc, const cJSON *response, const 
 	}
 }
 
+void cancel_routing_request(struct routing_request *request)
+{
+	HASHTABLE_REMOVE(route_table, request->owner_peer->routing_table, request->id, NULL);
+	if (unlikely(request->timer.cancel(&request->timer) < 0)) {
+		log_peer_err(request->requesting_peer, "Could not cancel request timer!\n");
+	}
+	cjet_timer_destroy(&request->timer);
+	cJSON_Delete(request->origin_request_id);
+	cjet_free(request);
+}
+
 static void send_shutdown_response(const struct peer *p,
                                    const cJSON *origin_request_id)
 {
